@@ -54,6 +54,7 @@ fn main() {
                     "compile" => compilemode::run(&req),
                     "det" => compilemode::run_det(&req),
                     "watch" => watchmode::run(&req),
+                    "sub" => compilemode::run_sub(&req),
                     _ => panic!("unknown mode"),
                 });
                 match res {
